@@ -24,7 +24,7 @@ ASSUMPTIONS = [
     "known finding nsmap-member-order-only: a reloaded child whose map equals its parent's adopts the parent's key order; accepted only "
     "when both texts parse to equal objects and every difference is the member order of an 'nsmap' object",
 ]
-REQUIRED = ["loads_after_in_place_edit_of_an_earlier_load", "saved_again_after_in_place_edits", "aliasing_checks", "trees_with_clark_extras_key", "roundtrips", "legacy_roundtrips", "upgrades", "trees_with_tail", "trees_with_extras", "trees_with_prefix", "trees_with_nested_nsmap",
+REQUIRED = ["vocabulary_sweep_trees", "trees_with_ids_that_are_not_strings", "loads_after_in_place_edit_of_an_earlier_load", "saved_again_after_in_place_edits", "aliasing_checks", "trees_with_clark_extras_key", "roundtrips", "legacy_roundtrips", "upgrades", "trees_with_tail", "trees_with_extras", "trees_with_prefix", "trees_with_nested_nsmap",
             "text_identical"]
 EXHAUSTIVE = {"quick": False, "thorough": False}
 
@@ -258,9 +258,37 @@ def judge(ctx, t, origin, history=None):
     emlkit.discard(t2, t3, l2, u)
 
 
+def vocabulary_content_sweep(ctx):
+    """Every element name of the vocabulary holding the contents the domain is full of (numbers in every spelling, identifiers, entity-looking
+    text), and trees whose ids are not strings: saved and loaded like any other."""
+    from vlib import domain
+    from vlib.emlkit import mrule
+    for e in mrule.node_names():
+        root = Node("verifHolder")
+        for w in domain.CONTENT_WORDS:
+            c = Node(e, content=w)
+            c.tail = w
+            root.add_child(c)
+        judge(ctx, root, "vocabulary sweep")
+        ctx.count("vocabulary_sweep_trees")
+        emlkit.discard(root)
+    for ids in ([17, 18, 19, 20], [0, -1, 2.5, True], ["17", 17, "0017", "urn:uuid:x"]):
+        root = Node("dataset", id=ids[0])
+        a = Node("title", id=ids[1], content="t")
+        b = Node("creator", id=ids[2])
+        root.add_child(a)
+        root.add_child(b)
+        b.add_child(Node("surName", id=ids[3], content="s"))
+        judge(ctx, root, "ids that are not strings")
+        ctx.count("trees_with_ids_that_are_not_strings")
+        emlkit.discard(root)
+
+
 def run(ctx, params):
     rng = ctx.rng
     gen = treegen.Gen()
+    if params.get("salt", 0) == 0:
+        vocabulary_content_sweep(ctx)
     for i in range(params["random"]):
         size = rng.choice([1, 2, 3, 5, 10, 25, params["max"]])
         same = 0.15 if i % 7 == 3 else 0.0
